@@ -26,6 +26,7 @@ pub struct LuaParser<'a> {
     ternary_depth: usize,
     paren_depth: usize,
     ternary_paren_depth: usize,
+    syntax_level: usize,
 }
 
 impl MarkerEventContainer for LuaParser<'_> {
@@ -67,6 +68,7 @@ impl<'a> LuaParser<'a> {
             ternary_depth: 0,
             paren_depth: 0,
             ternary_paren_depth: 0,
+            syntax_level: 0,
         };
 
         parse_chunk(&mut parser);
@@ -210,6 +212,29 @@ impl<'a> LuaParser<'a> {
 
     pub fn inside_ternary_branch(&self) -> bool {
         self.ternary_depth > 0
+    }
+
+    /// Nesting limit shared by statements, expressions and doc types (the reference
+    /// implementation rejects chunks nested deeper than 200 levels as well). Keeps the
+    /// recursive descent within the stack of a worker thread.
+    pub const MAX_SYNTAX_LEVEL: usize = 200;
+
+    /// Returns false (and reports an error) when the nesting limit is reached.
+    pub fn enter_level(&mut self) -> bool {
+        if self.syntax_level >= Self::MAX_SYNTAX_LEVEL {
+            let range = self.current_token_range();
+            self.push_error(LuaParseError::syntax_error_from(
+                &t!("chunk has too many syntax levels"),
+                range,
+            ));
+            return false;
+        }
+        self.syntax_level += 1;
+        true
+    }
+
+    pub fn leave_level(&mut self) {
+        self.syntax_level = self.syntax_level.saturating_sub(1);
     }
 
     pub fn enter_paren(&mut self) {
@@ -437,6 +462,7 @@ mod tests {
             ternary_depth: 0,
             paren_depth: 0,
             ternary_paren_depth: 0,
+            syntax_level: 0,
         };
         parser.init();
 
